@@ -137,7 +137,8 @@ TagDesignationNotResent(r) ==
   /\ "tx:designate" \in DOMAIN r.mem[1].sent
   /\ \E b \in BootOf(r.obs) : b.idx = -1 /\ b.st = "rec"
   /\ Cardinality({b \in BootOf(r.obs) : b.idx >= 1 /\ b.st = "rec"}) >= MajOf(r.n) - 1
-Tags(r) == (IF TagIndexShift(r) THEN {"NotaryIndexShift"} ELSE {}) \cup (IF TagWitnessOrder(r) THEN {"WitnessOrder"} ELSE {})
+Tags(r) == (IF TagIndexShift(r) /\ ~TagDesignationNotResent(r) THEN {"NotaryIndexShift"} ELSE {})
+           \cup (IF TagWitnessOrder(r) THEN {"WitnessOrder"} ELSE {})
            \cup (IF TagDesignationNotResent(r) THEN {"DesignationNotResent"} ELSE {})
 
 Zero4(d) == d.deploy = 0 /\ d.update = 0 /\ d.register = 0 /\ d.designate = 0
